@@ -259,6 +259,70 @@ def r_open(prog, R):
             r.viol("register<announce", f.name, f.loc(c["ln"]), "socket announced to the application before it is registered in connnode_by_socket")
     g = prog.func("find_src_addr", "ares_sortaddrinfo.c")
     _open_close_typestate(prog, r, g, None, False)
+    _socket_open_hands_out(prog, r)
+
+
+def _socket_open_hands_out(prog, r):
+    """ares_socket_open: once the socket callback returned a descriptor, every exit either hands it out through *sock or closes it"""
+    f = prog.func("ares_socket_open")
+    outp = f.params[0]["n"]
+    src = None
+    for b, i, el in f.elements():
+        if el["k"] == "asg" and el["e"]["op"] == "=" and is_var(strip(el["e"]["l"])):
+            rr = strip(el["e"].get("r"))
+            if rr is not None and rr.get("k") == "call":
+                full = f.call_by_id(rr["id"]) if rr.get("ref") else None
+                cn = full[2] if full else rr
+                if cn.get("fnx") is not None and "asocket" in render(cn["fnx"]):
+                    src = (b, i, strip(el["e"]["l"])["n"])
+    if not r.require(src is not None, "ares_socket_open: descriptor variable filled by the asocket callback not found"):
+        return
+    sb, si, sv = src
+    k = "ares_socket_open: an obtained descriptor is handed out or closed on every exit"
+
+    def settles(e2):
+        if e2["k"] == "asg" and e2["e"]["op"] == "=" and render(strip(e2["e"]["l"])) in ("*" + outp, "(*%s)" % outp) and is_var(strip(e2["e"].get("r")), sv):
+            return True
+        if e2["k"] == "call":
+            c = e2["e"]
+            cal = c.get("callee") or render(c.get("fnx")) if c.get("fnx") is not None or c.get("callee") else ""
+            if ("close" in (cal or "")) and any(a is not None and is_var(strip(a), sv) for a in c.get("args", [])):
+                return True
+        return False
+    seen, work, bad = set(), [(sb.id, si + 1, [sb.id])], None
+    while work and bad is None:
+        bid, st, trail = work.pop()
+        blk = f.blocks[bid]
+        done = False
+        for j in range(st, len(blk.els)):
+            e2 = blk.els[j]
+            if settles(e2):
+                done = True
+                break
+            if e2["k"] == "ret":
+                bad = (e2, trail)
+                done = True
+                break
+        if done:
+            continue
+        br = f.branch(blk)
+        for n2, s2 in enumerate(blk.succs):
+            if s2 is None:
+                continue
+            # the edge on which the descriptor is known to be invalid needs nothing
+            if br:
+                pol = (br[1] == s2)
+                if any(norm_cmp(c3, p3)[0] == "==" and is_var(strip(norm_cmp(c3, p3)[1]), sv) and name_of_const(norm_cmp(c3, p3)[2]) == "ARES_SOCKET_BAD" for c3, p3 in atoms(br[0], pol)):
+                    continue
+            if s2 == f.exit:
+                continue
+            if s2 not in seen:
+                seen.add(s2)
+                work.append((s2, 0, trail + [s2]))
+    if bad:
+        r.viol(k, f.name, f.loc(bad[0]), "ares_socket_open returns after the socket callback produced descriptor '%s' without storing it in *%s or closing it: the callers' cleanup sees ARES_SOCKET_BAD and the descriptor is lost (never closed, survives ares_destroy)" % (sv, outp), trail=trail_lines(f, bad[1]))
+    else:
+        r.ok(k, f.loc(f.ln))
 
 
 def r_announce(prog, R, rid="R-C10-ANNOUNCE"):
@@ -360,6 +424,23 @@ def r_udpmax(prog, R):
             r.viol("assign-counts", f.name, f.loc(el), "query assigned to a connection on a path that does not increment conn->total_queries", trail=trail_lines(f, t))
         else:
             r.ok("assign-counts", f.loc(el))
+    # the connection a query is written to comes from the limit-testing lookup or was just opened: nothing else may choose it
+    cvars = {strip(el["e"]["r"])["n"] for b, i, el in sets if is_var(strip(el["e"].get("r")))}
+    for cv in sorted(cvars):
+        for b, i, el in f.elements():
+            if el["k"] == "asg" and el["e"]["op"] == "=" and is_var(strip(el["e"]["l"]), cv):
+                rr = strip(el["e"].get("r"))
+                k = "conn-source %s" % (render(rr)[:40])
+                if rr is None or is_null(rr):
+                    continue
+                cn = None
+                if rr.get("k") == "call":
+                    full = f.call_by_id(rr["id"]) if rr.get("ref") else None
+                    cn = full[2] if full else rr
+                if cn is not None and cn.get("callee") == "ares_fetch_connection":
+                    r.ok("conn-source ares_fetch_connection", f.loc(el))
+                else:
+                    r.viol("conn-source other", f.name, f.loc(el), "ares_send_query picks the connection for a query with '%s = %s' instead of ares_fetch_connection (which applies udp_max_queries) or a freshly opened one: a UDP socket that reached its per-socket limit keeps carrying queries" % (cv, render(rr)))
     incs = [x for x in f.elements() if is_inc(x[2])]
     for b, i, el in incs:
         if b.id in f.loop_blocks():
